@@ -27,6 +27,62 @@ TABLE = {
         text="Decides, for Int/Float/String/Boolean/ID x {coerce_output, coerce_input, parse_literal}: wire-typed returns; integrality, inclusive 32-bit range (constants evaluated), bool rejection, finiteness and exact-type guards dominating every success; the literal kinds each parse_literal accepts equal the specification's (also Date/Time/DateTime); every failure is a TypeError / the invalid value; the generic scalar coercers delegate to the right method. Not decided: the value-level laws (same value, idempotence, literal = variable equality) - a static rule pretending to decide them would be a test in disguise.",
         note="Guards, not values. NODE_VALUE_TYPES (python type of node.value per AST class) is a frozen, reasoned table.",
     ),
+
+    "C04": dict(
+        technique="finite decision table over 6 predicates simulated on the CFG + structural obligations of the input coercers",
+        text="Decides CoerceVariableValues as a decision table (22 feasible valuations of provided/null/default/non-null/default-invalid/coercion-errors) simulated on variable_coercer's CFG; zip/skip/accumulate structure of coerce_variables; abort-before-execution guards in build_execution_context, execute and create_source_event_stream; wrapper composition and leaf table of get_input_coercer; tables of the input non-null, null and list wrappers and of input-object field coercion (defaults, required, unknown fields); raw variables are read only under declared names. Not decided: leaf coercion values (C10 covers built-in scalars structurally).",
+        note="Tables explore unrecognised tests both ways (sound for inclusion).",
+    ),
+    "C05": dict(
+        technique="finite decision table over 11 predicates (96 feasible valuations) + sibling obligation agreement + coverage of a validation rule over its producers",
+        text="Decides CoerceArgumentValues as a decision table on argument_coercer's CFG (default / error / explicit null / variable value / literal, invalid literal, hook application); one coercion per declared argument and raise-on-error in coerce_arguments inside the field's own try; the literal coercers discharge the same obligations as the input coercers (composition, null handling, per-item and per-field paths, defaults, required fields) and the same directive callable is bound to both sides; the null/variable wrapper's table; every transformer that can place a variable at an input position registers it for type checking - which fails for list and object literals (known finding, 2 entries). Not decided: equality of the delivered dictionaries for all values.",
+        note="Assumes composed literal coercers answer with CoercionResult objects (discharged by R3/R4).",
+    ),
+    "C06": dict(
+        technique="call-site/signature agreement + CFG push/pop matching + scoped-context save/restore analysis + decision tables of rule predicates",
+        text="Decides the conditions without which valid documents are refused: each of the 35 validate() sites names a registered rule and cannot raise (signature satisfiable, no duplicate keyword with context keys); the cycle rule's container holds the current spread path only; parent_type_name is saved, restored on every exit and not read by the transformer that overwrote it; the 26 shared rule objects are stateless; document-level rules run after all definitions are parsed; the predicates of the table-shaped rules (uniqueness family, lone anonymous, leaf selections, field existence, composite/existing types, known directives, input types, required/known arguments, executable definitions, directive locations, IsVariableUsageAllowed / AreTypesCompatible) equal the specification's. Not decided: absence of false rejections over all valid documents; graph-shaped predicates.",
+        note="Two defects found by these rules were repaired in /repo (cycle rule, inline-fragment bookkeeping); see known_findings.json.",
+    ),
+    "C07": dict(
+        technique="four-way table agreement (classes, RULE_SET, call sites, documentation) + per-site coverage on the CFG + dataflow of built errors + decision tables",
+        text="Decides: the 26 documented rules are implemented, registered and invoked; each rule is invoked from the parser of every node kind it discriminates on, on the node just built, on every path to the return; context keys written by the transformer are the ones the rules read; the dispatcher appends every rule's errors; every error object built in a rule flows to the returned list and no rule returns from inside a loop over candidate sites; refused documents short-circuit before execution in both executors; the cycle rule descends into nested selections and aborts the rules that recurse through spreads; rule predicates equal the specification's tables. Known finding: variables nested in list/object literals are not type-checked (2 entries). Not decided: strictness of graph-shaped predicates at every site.",
+        note="Four defects found by these rules were repaired in /repo; see known_findings.json.",
+    ),
+    "C08": dict(
+        technique="API census + coroutine consumption (def-use on the CFG) + gather/zip positional-merge analysis + sibling obligation agreement + effect census",
+        text="Decides structured concurrency: asyncio.gather is the only asyncio API; each of the ~100 coroutine-creating call sites is awaited, gathered or returned; gathers over field executions / value completions use return_exceptions=True; all 8 gather results are merged by position; the concurrent and sequential variants (lists, arguments) discharge the same obligations; concurrency flags are written at bake time only; request-phase while-loops walk finite chains; the only object mutated by concurrently running coroutines of a request is the append-only error list. Hence everything execute started has finished when it returns and nothing is started twice. Not decided: the interleavings themselves, order of errors, impure resolvers.",
+        note="asyncio's semantics of await/gather are trusted.",
+    ),
+    "C09": dict(
+        technique="decision on the executor selection + await-in-loop shape analysis + structured concurrency (C08.R1)",
+        text="Decides: mutation selects the serial executor (polarity checked), the root type table maps each operation kind to its own type, and in the serial executor the per-field resolve call is the direct operand of await inside a plain for loop over the collected mapping, with no asyncio API, no try, no early exit, results stored under the entry key in loop order; with structured concurrency each await returns only when the whole sub-selection finished. Nothing structural remains undecided; the residual assumption is asyncio's semantics of await.",
+        note="-",
+    ),
+    "C14": dict(
+        technique="once-per-iteration path enumeration on the CFG + guard dominance",
+        text="Decides: the loop over the source stream yields exactly once per iteration on every path, the yielded value is the awaited execute with the event in the root-value slot, no continue/break/return/handler in the loop and nothing after it; both pre-flight exits yield once and return before the source is created; the registered generator is called only without errors and with spec-coerced arguments; the three pass-through wrappers re-yield every item unchanged. Per-event semantics are C01/C02 obligations of the same execute. Not decided: behaviour of the user's generator, back-pressure.",
+        note="-",
+    ),
+    "C15": dict(
+        technique="effect census over call-graph reachability (slot-name points-to) with parameter provenance",
+        text="Decides that every store / mutator call / setattr in the ~150 functions that can run after the cache lookup writes an object created by the current request (fresh local, constructor, per-request class, or a parameter that is fresh at every call site inside the phase), never one reached from the schema or the cached document; per-request objects are constructed per call and never memoised; no class-level mutable attribute or mutable default in the request phase; error rendering hands out copies. Two reasoned exceptions are frozen in the checker. Not decided: interference through user objects (context, resolvers).",
+        note="Reference graph is an over-approximation by attribute/keyword name; exception objects are assumed to be created per failure.",
+    ),
+    "C16": dict(
+        technique="purity analysis of the cached function (reachability + effect census) + cache-key agreement",
+        text="Decides: the cached function takes exactly (query, schema); nothing it can reach is an engine method or touches the registry; every write it can perform goes to objects created by that parse; both entry points call it with exactly (query, self._schema); schema hashing is consistent with equality; every schema attribute read while parsing is written only while cooking; the decorator is applied per engine and the default lru_cache is per engine instance; cached errors are rendered without mutation and extensions are copied. Not decided: behaviour of user-supplied cache decorators.",
+        note="Same reference graph as C15.",
+    ),
+    "C17": dict(
+        technique="who-may-access census of the registry + write-locality of bake methods + census of process-global mutable containers",
+        text="Decides: every access to the registry dict is keyed first by a schema-name expression and nothing iterates over all schemas; each decorator registers itself under its own name; bake(schema) methods write only into objects obtained from their schema parameter; the 13 built-in modules create a new implementation per baked name and forward that name; no function writes any of the 12 module-level / class-level mutable containers after import except the registry. Not decided: interference through user modules imported twice.",
+        note="-",
+    ),
+    "C18": dict(
+        technique="finite decision table of the envelope + once-per-element call analysis + source enumeration + catch-all structure",
+        text="Decides: data is always present and errors present iff the coerced list is non-empty; the error coercer is called once per error and the user's coercer awaited once per call with (exception, default rendering); every source of entries of an errors list produces coercible objects; execute cannot raise past its catch-alls; nothing runs on syntax/validation errors; operation selection is named-and-found / single anonymous / otherwise an error before variable coercion; error records carry message, path, locations. Not decided: the C parser on arbitrary bytes (absent here), locations lying inside the query text.",
+        note="-",
+    ),
 }
 
 NOT_BUILT_REASON = "checker not built yet (build round in progress); see DESIGN.md section 2 for the planned static rules"
